@@ -21,7 +21,7 @@ import ast
 from engine.cfg import expand_aliases, call_name, cfg_of
 from engine.errors import AnalysisError
 from engine.repo import walk_no_nested
-from engine.util import calls_in, dotted, local_assignments, unparse
+from engine.util import calls_in, dotted, local_assignments, unparse, xsrc
 
 ID = 'C09'
 SCO = 'sdc11073.provider.sco'
@@ -135,7 +135,7 @@ def run(ctx):  # noqa: C901, PLR0912, PLR0915
            f'the worker unpacks the id from the same tuple position it was enqueued at ({wid}) and notifies with it',
            fi=run_, witness={'tuple_position': tup_pos, 'worker_name': wid})
     ns = repo.func('sdc11073.provider.porttypes.setserviceimpl.SetService.notify_operation')
-    src = unparse(ns.node)
+    src = xsrc(ns)
     ctx.ob('C09.R1', 'report carries id and state',
            'report_part.InvocationInfo.TransactionId = transaction_id' in src and
            'report_part.InvocationInfo.InvocationState = invocation_state' in src,
